@@ -121,11 +121,26 @@ func Observe(s string)   { Observed = append(Observed, s) }
 // with a count taken before the call under test).
 func Drain() int {
 	time.Sleep(30 * time.Millisecond)
-	return runtime.NumGoroutine() - 1
+	return settled()
 }
 
 // Goroutines reports the number of live goroutines besides the harness's own.
-func Goroutines() int { return runtime.NumGoroutine() - 1 }
+// Natively a goroutine that has signalled its end may still be unwinding, so
+// the count is the minimum seen over a short settling time; a goroutine that
+// is really still running or blocked stays counted.
+func Goroutines() int { return settled() }
+
+func settled() int {
+	n := runtime.NumGoroutine() - 1
+	for i := 0; i < 40 && n > 0; i++ {
+		runtime.Gosched()
+		time.Sleep(500 * time.Microsecond)
+		if m := runtime.NumGoroutine() - 1; m < n {
+			n = m
+		}
+	}
+	return n
+}
 func Blocked() int    { return 0 }
 
 // SchedMode(n): n >= 0 makes every scheduling decision a choice with at most
